@@ -210,6 +210,16 @@ def check_case(case):
                         viols.append(('alias-differs', '%s mask=%s: get_cycle_inds gives %s, get_cycle_vector %s' % (desc, mask.astype(int).tolist(), al_.tolist(), got.tolist())))
                 except Exception as e:
                     viols.append(('raise:alias:%s' % type(e).__name__, '%s: get_cycle_inds raised %r' % (desc, e)))
+            if mask is None and n <= 6:
+                # as the second column of an [n x 2] phase whose first column never wraps (a trend): same labels
+                try:
+                    two = np.c_[np.linspace(0.2, 1.1, n), phase]
+                    g2 = np.asarray(get_cycle_vector(two, return_good=rg, phase_step=STEP, phase_edge=edge))
+                    if g2.shape != (n, 2) or not np.array_equal(g2[:, 1], got):
+                        viols.append(('good-labels:second-column', '%s: as the second column of a two-column phase the labels are %s, alone %s' % (
+                            desc, g2[:, 1].tolist() if g2.ndim == 2 and g2.shape[1] == 2 else g2.shape, got.tolist())))
+                except Exception as e:
+                    viols.append(('raise:two-columns:%s' % type(e).__name__, '%s as second column raised %r' % (desc, e)))
             keep = []
             for (a, b), g in zip(segs, good):
                 ok = (g or not rg) and (mask is None or bool(np.all(mask[a:b])))
